@@ -48,7 +48,8 @@ EvMism(e) ==
                    \cup (IF e.decode.rest # 4 THEN {"decode.rest"} ELSE {})
                    \cup (IF e.decode.same # 1 THEN {"decode.value"} ELSE {})
                    \* every decoder of the written bytes gives the same set and final number: read, read_limited, from_slice_lax, the slice family
-                   \cup {<<"decode.read", "decode.read_limited", "decode.from_slice_lax", "decode.slice_family">>[i] : i \in {j \in 1..Len(e.decode.doors) : e.decode.doors[j] # 1}}
+                   \cup {<<"decode.read", "decode.read_limited", "decode.from_slice_lax", "decode.slice_family", "decode.ip_headers_from_slice", "decode.ip_headers_read",
+                          "decode.ip_slice_to_header", "decode.ip_headers_from_slice_lax", "decode.lax_ip_slice">>[i] : i \in {j \in 1..Len(e.decode.doors) : e.decode.doors[j] # 1}}
                    \cup (IF \E s \in SlotSet : e.decode.lens[s] # (IF c[s] = -1 THEN -1 ELSE HL[s]) THEN {"decode.slot_mixup"} ELSE {}))
         ELSE {})
   \* set_next_headers(17)
